@@ -16,7 +16,11 @@ use crate::{
         data_reader::DataReaderAsync, domain_participant::DomainParticipantAsync,
         subscriber::SubscriberAsync,
     },
-    infrastructure::{instance::InstanceHandle, status::StatusKind},
+    infrastructure::{
+        instance::InstanceHandle,
+        status::StatusKind,
+        time::{DurationKind, Time},
+    },
     rtps::message_receiver::MessageReceiver,
     rtps_messages::{
         overall_structure::{RtpsMessageRead, RtpsSubmessageReadKind},
@@ -62,6 +66,21 @@ impl DcpsDomainParticipant {
                         .find(|x| x.guid_prefix == cache_change.writer_guid.prefix())
                     {
                         matched_participant.last_communication_timestamp = runtime.clock().now();
+                    }
+                    // A sample that outlived the lifespan offered by its writer (e.g. because it
+                    // was delayed on the way) must not be delivered any more
+                    if let Some(source_timestamp) = cache_change.source_timestamp {
+                        let writer_key = <[u8; 16]>::from(cache_change.writer_guid);
+                        if let Some(DurationKind::Finite(lifespan)) = data_reader
+                            .matched_publication_list
+                            .iter()
+                            .find(|p| p.key().value == writer_key)
+                            .map(|p| p.lifespan().duration)
+                        {
+                            if Time::from(source_timestamp) + lifespan < reception_timestamp {
+                                continue;
+                            }
+                        }
                     }
                     let Some(type_support) = get_topic_type_support(
                         &data_reader.topic_name,
